@@ -60,6 +60,7 @@ type FuncContract struct {
 	file       string
 	line       int
 	notes      []string
+	only       map[string]int // "only <callee|send:chan|recv:chan> <n>": exact number of such sites in the function
 }
 
 type PredDef struct {
@@ -333,6 +334,21 @@ func (p *Program) parseContractFile(file, pkgName string) error {
 				}
 			case "note":
 				cur.notes = append(cur.notes, rest)
+			case "only":
+				// only <callee> <n>: the function has exactly n call sites of <callee> (send:<chan> / recv:<chan>
+				// for channel operations): a structural frame - nothing else emits / deletes / sends
+				f := strings.Fields(rest)
+				if len(f) != 2 {
+					return fmt.Errorf("%s:%d: only <callee> <n>", file, l.line)
+				}
+				n, err := strconv.Atoi(f[1])
+				if err != nil {
+					return fmt.Errorf("%s:%d: only <callee> <n>", file, l.line)
+				}
+				if cur.only == nil {
+					cur.only = map[string]int{}
+				}
+				cur.only[f[0]] = n
 			default:
 				return fmt.Errorf("%s:%d: unknown clause %q", file, l.line, kw)
 			}
